@@ -30,6 +30,7 @@ CUSTOM = VERIF / 'harness' / 'impl' / 'c19_backend'
 PY = '/venv/bin/python' if os.path.exists('/venv/bin/python') else sys.executable
 SRCS = ('cli', 'env', 'prof', 'dflt')
 SRC_NO = {'cli': 1, 'env': 2, 'prof': 3, 'dflt': 4}
+META = {'ignore': 0, 'config': 1}     # variant indices of --ignore-config / --config in the row `configuration_file` (set by Tables)
 MISSING = {'t': 'missing'}
 NONE = {'t': 'none'}
 POSITIONAL_WORDS = {'path': ['posA', 'posB'], 'snapshot': ['snapA'], 'name': ['benchA'], 'object': ['objA', 'objB']}
@@ -64,6 +65,11 @@ class Tables:
         self.file_mutex = t['fileMutex']
         self.intro = intro
         self.by_key = {(r['owner'], r['dest']): r for r in self.rows}
+        for i, v in enumerate(self.by_key.get(('', 'configuration_file'), {'cli': []})['cli']):
+            if v['kind'] == 'constNone':
+                META['ignore'] = i
+            elif v['kind'] == 'typed':
+                META['config'] = i
         self.backends = sorted({r['owner'] for r in self.rows if r['scope'] == 2})
         # live details: nargs / action class per (command, dest, flag)
         self.live = {}
@@ -125,8 +131,9 @@ class Tables:
                 if a is None or a['flags'] != v['flags']:
                     problems.append({'row': [r['owner'], r['dest']], 'flag': v['flag'], 'live': a and a['flags']})
         cf = self.by_key.get(('', 'configuration_file'))
-        if cf is None or not cf['cli'] or cf['cli'][0]['flag'] != '--ignore-config' or cf['cli'][0]['kind'] != 'constNone':
-            problems.append({'configuration_file': 'variant 0 is expected to be --ignore-config (store_const None)'})
+        kinds = sorted(v['kind'] for v in cf['cli']) if cf else []
+        if kinds != ['constNone', 'typed']:
+            problems.append({'configuration_file': f'expected one store_const None flag and one flag with a value, found {kinds}'})
         return problems
 
 
@@ -135,8 +142,10 @@ class Real:
     """the REAL type functions / validators, by the names used in the generated table"""
 
     def __init__(self):
+        import logging
         import replicat.utils as utils
         from replicat.utils import cli, config
+        logging.getLogger('replicat').setLevel(logging.CRITICAL)     # parse_repository logs every rejected text
         self.utils, self.cli, self.config = utils, cli, config
         self.by_name = {
             'parseRepository': utils.parse_repository, 'path': Path, 'naturalNumberCli': cli._natural_number,
@@ -553,9 +562,9 @@ def realise(case, tables, r, ctx):
     cf, pf = tables.by_key[('', 'configuration_file')], tables.by_key[('', 'profile')]
     if not case['assign'].get('/configuration_file', {}).get('cli'):
         if case['config_mode'] == 'ignored':
-            assign(case, cf, 'cli', 0, None)
+            assign(case, cf, 'cli', META['ignore'], None)
         elif case['config_mode'] == 'explicit' and has_file:
-            assign(case, cf, 'cli', 1, str(Path(ctx['dir']) / 'conf.toml'))
+            assign(case, cf, 'cli', META['config'], str(Path(ctx['dir']) / 'conf.toml'))
     uses_profile = case.get('decoys') or any(s.get('prof') for s in case['assign'].values())
     if uses_profile and not file_ignored(case) and not case['assign'].get('/profile', {}).get('cli'):
         assign(case, pf, 'cli', 0, case['profile'])
@@ -681,7 +690,7 @@ def file_ignored(case):
     if case['config_mode'] == 'ignored':
         return True
     for vi, _ in case['assign'].get('/configuration_file', {}).get('cli', []):
-        if vi == 0:      # variant 0 of configuration_file is --ignore-config (checked in structure_check)
+        if vi == META['ignore']:
             return True
     return False
 
@@ -1120,6 +1129,7 @@ def run_cases(out, drv, tables, real, cases, base, label):
         ctx = {'backend': c['backend'], 'dir': str(cdir), 'files': {}}
         realise(c, tables, r, ctx)
         c['files'] = ctx['files']
+        c['dir'] = str(cdir)
     with concurrent.futures.ThreadPoolExecutor(16) as ex:
         results = list(ex.map(lambda c: execute(c, tables, base / c['id']), cases))
     for c, res in zip(cases, results):
@@ -1196,6 +1206,11 @@ def run(out, drv, info):
         run_scenarios(out, base)
         run_cases(out, drv, tables, real, cases, base, 'g')
         semok_check(out, tables, real)
+        # report the sharpest findings first (the runner prints the first five distinct signatures)
+        prio = ['options:scenario', 'options:precedence', 'options:exclusive', 'options:file-exclusive', 'options:unacceptable',
+                'options:backend', 'options:unexpected', 'options:compatible', 'options:D14', 'options:D15:backend-coerced-twice:env',
+                'options:profile-vs-default:cache-directory', 'options:D15', 'options:profile-vs-default']
+        out.violations.sort(key=lambda v: next((i for i, p in enumerate(prio) if v['sig'].startswith(p)), len(prio)))
     finally:
         shutil.rmtree(pid_dir, ignore_errors=True)
 
@@ -1224,16 +1239,14 @@ def replay(path, drv):
         cdir.mkdir(parents=True, exist_ok=True)
         intro = introspect()
         tables = Tables(drv, intro) if drv is not None else None
-        case = dict(case)
-        case.setdefault('files', {})
+        case = json.loads(json.dumps(case).replace(case.get('dir', '\0'), str(cdir)))   # relocate the case directory
+        case['files'] = {}
         # file-valued options: re-create the files the raw values point to
         for key, srcs in case['assign'].items():
             for src, lst in srcs.items():
                 for vi, raw in lst:
-                    if isinstance(raw, str) and raw.endswith('.bin') and '/c19/' in raw:
-                        newp = cdir / Path(raw).name
-                        newp.write_bytes(f"{key.split('/', 1)[1]} from {src}".encode())
-                        lst[lst.index([vi, raw])] = [vi, str(newp)]
+                    if isinstance(raw, str) and raw.endswith(f'-{src}.bin') and raw.startswith(str(cdir)):
+                        case['files'][raw] = f"{key.split('/', 1)[1]} from {src}".encode().hex()
         res = execute(case, tables, cdir)
         print('argv   :', case['argv'])
         print('env    :', case['env'])
